@@ -171,9 +171,18 @@ def run(ctx: Ctx):
         judge_graphs(ctx, s, cases)
         s.finish()
     s = Stream(ctx, "scans: random project trees x module_path x level_limit")
-    rng = ctx.rng("scans")
+    scan_stream(ctx, s, ctx.size(400, 8000), ctx.rng("scans"))
+    s.finish()
+    for name, comps in (("verdicts above the limit: plain", gen.PLAIN), ("verdicts above the limit: adversarial", gen.IDENT_ADVERSARIAL)):
+        s = Stream(ctx, name)
+        judge_verdicts(ctx, s, verdict_cases(ctx, ctx.rng(name), ctx.size(8000, 150000), comps))
+        s.finish()
+    return RULE
+
+
+def scan_stream(ctx, s, n, rng):
     cases = []
-    for _ in range(ctx.size(400, 8000)):
+    for _ in range(n):
         tree = sc.gen_tree(rng, max_depth=5)
         # a third of the scans include external libraries (also ones nested deeper than the limit): they are flattened
         # like every other module name
@@ -183,9 +192,3 @@ def run(ctx: Ctx):
         mp = rng.choice(dirs) if rng.random() < 0.6 else "proj"
         cases.append({"tree": tree, "root": "proj", "mp": mp, "k": rng.randint(0, 3), "xx": xx})
     judge_scans(ctx, s, cases)
-    s.finish()
-    for name, comps in (("verdicts above the limit: plain", gen.PLAIN), ("verdicts above the limit: adversarial", gen.IDENT_ADVERSARIAL)):
-        s = Stream(ctx, name)
-        judge_verdicts(ctx, s, verdict_cases(ctx, ctx.rng(name), ctx.size(8000, 150000), comps))
-        s.finish()
-    return RULE
